@@ -88,6 +88,14 @@ def handle : Handler := fun j => do
     pure (Driver.verdict agree judge (Json.bool m)
       [if libValid then "lib-valid" else "lib-invalid", if inRange then "in-range" else "out-of-range",
        if m then "schema-valid" else "schema-invalid"])
+  | "firstuse" =>
+    -- fresh processes in which many goroutines validate an invalid document at once as their very first use of the
+    -- builtin schema: the schema is one fixed value (`Generated.builtinSchema`), there is no state in which it is
+    -- "not there yet", so every one of those validations rejects
+    let accepted ← getNat obs "accepted"
+    let ran ← getNat obs "ran"
+    let judge : Option String := if accepted == 0 then none else some "invalid-document-accepted-at-first-use-of-the-builtin-schema"
+    pure (verdict (accepted == 0) judge (Json.num 0) [if ran == 0 then "firstuse-not-run" else "firstuse"])
   | _ => throw s!"schema: unknown op {op}"
 
 end Driver.Schema
